@@ -9,7 +9,8 @@ Tie: the Lean model `Batchie.Model.Thetas` (driver_c10) is run on the same input
 Oracles (implementation only): reloaded holder == saved holder (declared size, number, order, every
 parameter by dtype/shape/bit pattern, the single-effect table), predictions before/after reload
 byte-identical, concat chain-major, evaluate_model's chain ids aligned with its prediction columns
-for any file order, the three refusals.
+for any file order (each case in its order and reversed), the three refusals, independence of combine/concat results and operands
+(no aliasing in either direction; operands reusable), save_h5 leaves the in-memory holder unchanged.
 
 Every oracle failure carries a JSON case from which `replay` re-executes exactly that case.
 """
@@ -32,8 +33,11 @@ RULE = ("holders of 1-25 samples (thorough: up to 40) of both shipped sample typ
         "(denormals, -0.0, inf, quiet/signalling NaN payloads, values that do not survive float32), float32/int64 arrays, empty "
         "arrays, python/numpy scalars, declared size >= number of samples, single-effect tables incl. the empty one; real "
         "save_h5/load_h5; 'predictable' holders on a real Screen (predictions before/after reload compared bytewise); 1-4 chains "
-        "of unequal length saved to files, shuffled file order, real evaluate_model.main(); in-memory concat incl. incomplete "
-        "holders; refusals. Non-trivial: >= 11 samples in one file (so that '10' < '2' alphabetically matters) or >= 2 chains of "
+        "of unequal length (half of them with a total divisible by the number of files) saved to files, shuffled file order AND the reversed "
+        "order on the same files, real evaluate_model.main(); arrays in C / Fortran / strided / read-only layout; the saved holder is "
+        "compared with its pre-save snapshot; in-memory concat incl. incomplete holders, expectation from a snapshot taken before the "
+        "call; reuse sequences concat([A,B,..]) -> concat([A,C]) -> A.combine(B) -> add_theta on results and on A (operands and earlier "
+        "results must be unchanged, A must still refuse growth / out-of-range access); refusals. Non-trivial: >= 11 samples in one file (so that '10' < '2' alphabetically matters) or >= 2 chains of "
         "unequal length.")
 
 SPECIAL64 = [0x0000000000000000, 0x8000000000000000, 0x0000000000000001, 0x800fffffffffffff, 0x000fffffffffffff,
@@ -72,7 +76,11 @@ def gen_val(rng, scalar, allow_exotic=True):
         bits = [rng.choice(SPECIAL32) if rng.random() < 0.5 else rng.getrandbits(32) for _ in range(n)]
     else:
         bits = [rng.randrange(-2 ** 62, 2 ** 62) for _ in range(n)]
-    return {"k": k, "shape": shape, "bits": bits}
+    v = {"k": k, "shape": shape, "bits": bits}
+    if allow_exotic and rng.random() < 0.35:
+        # memory layout of the array handed to save_h5: Fortran order, a strided (non-contiguous) view, read-only
+        v["layout"] = rng.choice(["F", "strided", "ro", "strided-ro"])
+    return v
 
 
 def build_val(v):
@@ -93,7 +101,17 @@ def build_val(v):
         a = np.array(bits, dtype="<u4").view("<f4")
     else:
         a = np.array(bits, dtype="<i8")
-    return a.reshape(v["shape"]).copy()
+    a = a.reshape(v["shape"]).copy()
+    layout = v.get("layout", "")
+    if layout == "F":
+        a = np.asfortranarray(a)
+    elif layout.startswith("strided"):
+        big = np.zeros((2 * a.shape[0],) + a.shape[1:], dtype=a.dtype)
+        big[::2] = a
+        a = big[::2]                     # same values, not contiguous (unless a dimension is 0 or 1)
+    if layout.endswith("ro"):
+        a.setflags(write=False)
+    return a
 
 
 def canon_val(x):
@@ -307,6 +325,13 @@ def run_roundtrip(case, tmp, res, queue, rng, check_model=True):
         res.fail("save_h5 raises on a non-empty holder", case, err_tok(e) + ": " + str(e)[:200], "file written", signature="C10:save-raises")
         return
     head, groups = read_raw(fn)
+    after_save = show_holder(h)
+    if after_save != want:
+        a, b = want.split(" "), after_save.split(" ")
+        idx = next((i for i in range(min(len(a), len(b))) if a[i] != b[i]), min(len(a), len(b)))
+        res.fail("save_h5 changed the in-memory collection it was asked to save", case,
+                 {"first_difference_token": idx, "before": a[idx][:200] if idx < len(a) else None, "after": b[idx][:200] if idx < len(b) else None},
+                 "saving leaves the samples untouched", signature="C10:save-mutates-holder")
     try:
         with quiet():
             back = ThetaHolder.load_h5(fn)
@@ -375,73 +400,101 @@ def run_evaluate(case, tmp, res, queue):
             tl.append(tag)
             tag += 1
         tags[ci] = tl
-    order = case["order"]
-    out = os.path.join(tmp, "me.h5")
-    argv = ["evaluate_model", "--screen", sfn, "--thetas"] + [files[i] for i in order] + ["--output", out]
-    old = sys.argv
-    sys.argv = argv
-    try:
-        with quiet():
-            evaluate_model.main()
-        me = ModelEvaluation.load_h5(out)
-        impl_err = None
-    except Exception as e:
-        impl_err = e
-    finally:
-        sys.argv = old
-    light = ["%d:%s" % (case["chains"][i]["size"], ",".join(str(x) for x in tags[i]) if tags[i] else "-") for i in order]
-    complete = all(case["chains"][i]["size"] == len(tags[i]) for i in order)
-    if impl_err is not None:
-        impl = err_tok(impl_err)
-        if complete:
-            res.fail("evaluate_model raises on complete chain files", case, impl + ": " + str(impl_err)[:200], "a ModelEvaluation", signature="C10:evaluate-raises")
-    else:
-        expected = [(pos, tg) for pos, i in enumerate(order) for tg in tags[i]]
-        cids = [int(x) for x in me.chain_ids]
-        P = np.asarray(me.predictions)
-        cols = []
-        ok = P.shape[1] == len(expected) and len(cids) == len(expected)
-        if ok:
-            for j, (pos, tg) in enumerate(expected):
-                match = [g for g, p in preds.items() if p.tobytes() == np.ascontiguousarray(P[:, j]).astype(np.float32).tobytes()]
-                cols.append("%d:%s" % (cids[j], "/".join(str(m) for m in match) if len(match) == 1 else "?%d" % len(match)))
-                if cids[j] != pos or preds[tg].tobytes() != np.ascontiguousarray(P[:, j]).astype(np.float32).tobytes():
-                    ok = False
-        if not ok:
-            res.fail("evaluate_model: chain id of a prediction column is not the index of the file its sample came from "
-                     "(or the columns are not in chain-major order)", case,
-                     {"chain_ids": cids, "columns(chain_id:sample tag)": cols, "n_columns": int(P.shape[1])},
-                     {"columns(chain_id:sample tag)": ["%d:%d" % e for e in expected]}, signature="C10:chain-ids-misaligned")
-        impl = "ok " + (",".join(cols) if cols else "-")
     distinct = len({p.tobytes() for p in preds.values()}) == len(preds)
-    if distinct:
-        queue("evaluate", case, " ".join(["c10.eval"] + light), impl)
+    orders = [list(case["order"])]
+    if case.get("both_orders") and len(case["order"]) >= 2:
+        orders.append(list(reversed(case["order"])))          # the same files, the other way round on the command line
+    for oi, order in enumerate(orders):
+        out = os.path.join(tmp, "me%d.h5" % oi)
+        argv = ["evaluate_model", "--screen", sfn, "--thetas"] + [files[i] for i in order] + ["--output", out]
+        old = sys.argv
+        sys.argv = argv
+        try:
+            with quiet():
+                evaluate_model.main()
+            me = ModelEvaluation.load_h5(out)
+            impl_err = None
+        except Exception as e:
+            impl_err = e
+        finally:
+            sys.argv = old
+        light = ["%d:%s" % (case["chains"][i]["size"], ",".join(str(x) for x in tags[i]) if tags[i] else "-") for i in order]
+        complete = all(case["chains"][i]["size"] == len(tags[i]) for i in order)
+        if impl_err is not None:
+            impl = err_tok(impl_err)
+            if complete:
+                res.fail("evaluate_model raises on complete chain files", case, {"file_order": order, "error": impl + ": " + str(impl_err)[:200]},
+                         "a ModelEvaluation", signature="C10:evaluate-raises")
+        else:
+            expected = [(pos, tg) for pos, i in enumerate(order) for tg in tags[i]]
+            cids = [int(x) for x in me.chain_ids]
+            P = np.asarray(me.predictions)
+            cols = []
+            ok = P.shape[1] == len(expected) and len(cids) == len(expected)
+            if ok:
+                for j, (pos, tg) in enumerate(expected):
+                    match = [g for g, p in preds.items() if p.tobytes() == np.ascontiguousarray(P[:, j]).astype(np.float32).tobytes()]
+                    cols.append("%d:%s" % (cids[j], "/".join(str(m) for m in match) if len(match) == 1 else "?%d" % len(match)))
+                    if cids[j] != pos or preds[tg].tobytes() != np.ascontiguousarray(P[:, j]).astype(np.float32).tobytes():
+                        ok = False
+            if not ok:
+                res.fail("evaluate_model: chain id of a prediction column is not the index of the file its sample came from "
+                         "(or the columns are not in chain-major order)", case,
+                         {"file_order": order, "samples_per_file": [len(tags[i]) for i in order], "chain_ids": cids,
+                          "columns(chain_id:sample tag)": cols, "n_columns": int(P.shape[1])},
+                         {"columns(chain_id:sample tag)": ["%d:%d" % e for e in expected]}, signature="C10:chain-ids-misaligned")
+            impl = "ok " + (",".join(cols) if cols else "-")
+        if distinct:
+            queue("evaluate" if oi == 0 else "evaluate-reversed", case, " ".join(["c10.eval"] + light), impl)
     return distinct
 
 
-def run_concat(case, res, queue):
-    from batchie.core import ThetaHolder
+class Tag:
+    def __init__(self, t):
+        self.t = t
 
-    class Tag:
-        def __init__(self, t):
-            self.t = t
-    hs, light = [], []
+
+def _tagged_holders(spec):
+    """[(declared size, number of samples)] -> holders of Tag objects + their snapshots (size, [tags]) + light tokens"""
+    from batchie.core import ThetaHolder
+    hs, snaps, light = [], [], []
     tag = 0
-    for size, n in case["holders"]:
+    for size, n in spec:
         h = ThetaHolder(n_thetas=size)
         for _ in range(n):
             h.thetas.append(Tag(tag))
             tag += 1
         hs.append(h)
+        snaps.append((size, [t.t for t in h.thetas]))
         light.append("%d:%s" % (size, ",".join(str(t.t) for t in h.thetas) if h.thetas else "-"))
+    return hs, snaps, light
+
+
+def _state(h):
+    return (int(h.n_thetas), [t.t for t in h.thetas])
+
+
+def _light(st):
+    return "%d:%s" % (st[0], ",".join(str(x) for x in st[1]) if st[1] else "-")
+
+
+def run_concat(case, res, queue):
+    """one concat; the expectation is computed from a snapshot taken BEFORE the call, and the operands must be unchanged after it"""
+    from batchie.core import ThetaHolder
+    hs, snaps, light = _tagged_holders(case["holders"])
+    want = (sum(s for s, _ in snaps), [t for _, ts in snaps for t in ts])
     try:
-        r = ThetaHolder.concat(hs)
-        impl = "ok %d:%s" % (int(r.n_thetas), ",".join(str(t.t) for t in r.thetas) if r.thetas else "-")
-        want = [t.t for h in hs for t in h.thetas]
-        if [t.t for t in r.thetas] != want or int(r.n_thetas) != sum(s for s, _ in case["holders"]):
+        r = ThetaHolder.concat(list(hs))
+        impl = "ok " + _light(_state(r))
+        if _state(r) != want:
             res.fail("concat is not chain-major (or declared size is not the sum)", case,
-                     {"thetas": [t.t for t in r.thetas], "n_thetas": int(r.n_thetas)}, {"thetas": want, "n_thetas": sum(s for s, _ in case["holders"])},
+                     {"thetas": _state(r)[1], "n_thetas": _state(r)[0]}, {"thetas": want[1], "n_thetas": want[0]},
                      signature="C10:concat-not-chain-major")
+        changed = [i for i, h in enumerate(hs) if _state(h) != snaps[i]]
+        if changed:
+            i = changed[0]
+            res.fail("concat changed one of the collections it was given (operand %d)" % i, case,
+                     {"operand": i, "after": _light(_state(hs[i]))}, {"operand": i, "unchanged": _light(snaps[i])}, signature="C10:concat-aliases-operand")
     except Exception as e:
         impl = err_tok(e)
         if hs:
@@ -451,12 +504,92 @@ def run_concat(case, res, queue):
     queue("concat", case, " ".join(["c10.concat"] + light), impl)
 
 
+def run_reuse(case, res, queue):
+    """collections are used AGAIN after they were operands of combine/concat: concat([A,B,..]) then concat([A,C]), A.combine(B); the
+    operands must be unchanged, the earlier results must be unchanged, growth of a result must not reach an operand (and vice versa),
+    and A must still refuse growth beyond its declared size and out-of-range access"""
+    from batchie.core import ThetaHolder
+    hs, snaps, light = _tagged_holders(case["holders"])
+    A, B, C = hs[0], hs[1], hs[2]
+    first_idx = [0, 1] + list(range(3, len(hs)))
+    problems = []
+
+    def cat(idx):
+        return (sum(snaps[i][0] for i in idx), [t for i in idx for t in snaps[i][1]])
+
+    def operands(when, skip=()):
+        for i, h in enumerate(hs):
+            if i not in skip and _state(h) != snaps[i]:
+                problems.append({"when": when, "what": "operand %d changed" % i, "observed": _light(_state(h)), "required": _light(snaps[i])})
+
+    def same(when, name, r, want):
+        if _state(r) != want:
+            problems.append({"when": when, "what": name + " is not the chain-major concatenation of the operands as they were given",
+                             "observed": _light(_state(r)), "required": _light(want)})
+    try:
+        r1 = ThetaHolder.concat([hs[i] for i in first_idx])
+        w1 = cat(first_idx)
+        same("concat(first list)", "result", r1, w1)
+        operands("after concat(first list)")
+        r2 = ThetaHolder.concat([A, C])
+        w2 = cat([0, 2])
+        same("concat([A, C]) after A was an operand", "result", r2, w2)
+        same("after concat([A, C])", "the earlier result", r1, w1)
+        operands("after concat([A, C])")
+        r3 = A.combine(B)
+        w3 = cat([0, 1])
+        same("A.combine(B)", "result", r3, w3)
+        operands("after A.combine(B)")
+        results = [("concat(first list)", r1, w1), ("concat([A, C])", r2, w2), ("A.combine(B)", r3, w3)]
+        # growth of a result must not reach an operand or another result
+        for k, (name, r, w) in enumerate(results):
+            if len(w[1]) < w[0]:
+                r.add_theta(Tag(-10 - k))
+                w = (w[0], w[1] + [-10 - k])
+                results[k] = (name, r, w)
+                same("add_theta on " + name, "that result", r, w)
+                operands("after add_theta on the result of " + name)
+                for name2, r_, w_ in results:
+                    same("after add_theta on the result of " + name, "result of " + name2, r_, w_)
+        # A after having been an operand three times: refusals
+        sizeA, tagsA = snaps[0]
+        try:
+            A.get_theta(len(tagsA))
+            problems.append({"when": "A.get_theta(len(A)) after A was an operand", "what": "out-of-range access served", "observed": "a sample", "required": "ValueError"})
+        except ValueError:
+            pass
+        try:
+            A.add_theta(Tag(-1))
+            grew = True
+        except ValueError:
+            grew = False
+        if grew and len(tagsA) >= sizeA:
+            problems.append({"when": "A.add_theta on a full A", "what": "A grew beyond its declared size", "observed": _light(_state(A)), "required": "ValueError"})
+        if not grew and len(tagsA) < sizeA:
+            problems.append({"when": "A.add_theta on A with room", "what": "refused although A holds %d of %d (as given)" % (len(tagsA), sizeA),
+                             "observed": "ValueError; A = " + _light(_state(A)), "required": "appended"})
+        if grew:
+            snaps[0] = (sizeA, tagsA + [-1])
+        operands("after add_theta on A")
+        for name, r, w in results:
+            same("after add_theta on operand A", "result of " + name, r, w)
+        if any(r.thetas is h.thetas for _, r, _ in results for h in hs):
+            problems.append({"when": "identity", "what": "a result shares its list object with an operand", "observed": "same list", "required": "a new list"})
+        impl1, impl2 = "ok " + _light(w1), "ok " + _light(w2)
+    except Exception as e:
+        problems.append({"when": "sequence", "what": "raised", "observed": err_tok(e) + ": " + str(e)[:200], "required": "no exception"})
+        impl1 = impl2 = None
+    if problems:
+        res.fail("collections are not independent of the combine/concat calls they took part in: " + problems[0]["what"] + " (" + problems[0]["when"] + ")",
+                 case, {"observed": problems[0]["observed"], "n_problems": len(problems), "all": [p["when"] + ": " + p["what"] for p in problems[:8]]},
+                 problems[0]["required"], signature="C10:concat-aliases-operand")
+    elif impl1 is not None:
+        queue("reuse-concat1", case, " ".join(["c10.concat"] + [light[i] for i in first_idx]), impl1)
+        queue("reuse-concat2", case, " ".join(["c10.concat", light[0], light[2]]), impl2)
+
+
 def run_refusal(case, tmp, res, queue):
     from batchie.core import ThetaHolder
-
-    class Tag:
-        def __init__(self, t):
-            self.t = t
     size, n = case["size"], case["n"]
     h = ThetaHolder(n_thetas=size)
     for i in range(n):
@@ -507,6 +640,11 @@ def gen_eval_case(rng, cls, force_big):
     lens = [rng.randint(1, 6) for _ in range(k)]
     if force_big:
         lens[rng.randrange(k)] = rng.randint(11, 14)
+    if k >= 2 and rng.random() < 0.5:
+        # UNEQUAL sample counts whose total is divisible by the number of files: labelling by `total // n_chains` would be silent
+        while len(set(lens)) < 2 or sum(lens) % k != 0:
+            j = rng.randrange(k)
+            lens[j] = lens[j] % 14 + 1
     chains = []
     for n in lens:
         size = n if rng.random() < 0.9 else n + 1      # an incomplete file now and then
@@ -514,7 +652,7 @@ def gen_eval_case(rng, cls, force_big):
     order = list(range(k))
     rng.shuffle(order)
     case = {"kind": "evaluate", "cls": cls, "n_samples": n_samples, "n_treat": n_treat, "n_rows": rng.randint(3, 8),
-            "screen_seed": rng.getrandbits(32), "chains": chains, "order": order}
+            "screen_seed": rng.getrandbits(32), "chains": chains, "order": order, "both_orders": True}
     if cls == "I":
         case["table"] = gen_table(rng, n_samples, n_treat)
     return case
@@ -530,6 +668,8 @@ def run_case(case, tmp, res, queue, rng):
         return run_evaluate(case, tmp, res, queue)
     elif k == "concat":
         run_concat(case, res, queue)
+    elif k == "reuse":
+        run_reuse(case, res, queue)
     elif k == "refusal":
         run_refusal(case, tmp, res, queue)
     return True
@@ -590,6 +730,14 @@ def run(ctx, res):
                 res.count("evaluate.incomplete")
             if case["order"] != sorted(case["order"]):
                 res.count("evaluate.shuffled")
+            if len(lens) >= 2:
+                res.count("evaluate.both_orders")
+            if len(set(lens)) >= 2:
+                res.count("evaluate.unequal_counts")
+                if sum(lens) % len(lens) == 0:
+                    res.count("evaluate.unequal_counts_total_divisible")
+            if max(lens) >= 11:
+                res.count("evaluate.file_with_11plus")
             distinct = run_case(case, tmp, res, queue, rng)
             if distinct and (max(lens) >= 11 or len(set(lens)) >= 2):
                 res.nontrivial.add(common.short_hash(case))
@@ -607,6 +755,29 @@ def run(ctx, res):
             res.count("concat.k.%d" % k)
             if len({n for _, n in holders}) >= 2:
                 res.nontrivial.add(common.short_hash(case))
+            run_case(case, tmp, res, queue, rng)
+        # 4b. collections used again after they were operands (aliasing of combine/concat results with their operands)
+        for t in range(ctx.scale(80, 1000, 400)):
+            k = rng.randint(3, 5)
+            holders = []
+            for _ in range(k):
+                n = rng.randint(0, 6)
+                holders.append([n + (0 if rng.random() < 0.6 else rng.randint(1, 3)), n])
+            if t % 4 == 0:
+                holders[1][1] = 0                      # an empty right operand
+                holders[1][0] = rng.randint(0, 2)
+            if t % 4 == 1:
+                holders[0][1] = 0                      # an empty left operand
+            case = {"kind": "reuse", "holders": holders}
+            res.evaluations += 1
+            res.count("reuse.k.%d" % k)
+            if holders[0][0] == holders[0][1]:
+                res.count("reuse.A_full")
+            else:
+                res.count("reuse.A_with_room")
+            if holders[1][1] == 0:
+                res.count("reuse.B_empty")
+            res.nontrivial.add(common.short_hash(case))
             run_case(case, tmp, res, queue, rng)
         # 5. refusals
         for t in range(ctx.scale(80, 600, 300)):
